@@ -19,8 +19,9 @@ CLAIM = {
     "text": "Unbounded theorems (any layers, any keys) about an executable Coq model of init_options: precedence, "
             "iter expansion, every coupling, unknown-key pass-through; documented defaults = code defaults decided "
             "by computation on tables regenerated from the source on every run. The model is tied to the code by "
-            "an exhaustive correspondence over all presence patterns evaluated inside Coq.",
-    "note": "All eight theorems are closed under the global context (no axioms). Python truthiness of option values "
+            "an exhaustive correspondence over all presence patterns evaluated inside Coq; histories of set_user_pf_options "
+            "calls (with reset) are covered by stored_options_follow_history / precedence_after_history and a second correspondence.",
+    "note": "All ten theorems are closed under the global context (no axioms). Python truthiness of option values "
             "other than bool/int/str/None is modelled as true (the generator never feeds falsy ones into inspected keys).",
     "technique": "Coq proof over hand-written model + exhaustive model/implementation correspondence + generated tables",
     "design": "DESIGN.md 4/C14",
@@ -244,6 +245,7 @@ def run(ctx):
             ctx.violation(sig, what, {"numba_installed": nb, "user_pf_options": u, "call_kwargs": k,
                                       "observed_options": obs, "how": "net=small_net(); set_user_pf_options(net, **user); "
                                                                        "init_options(net, **call)"})
+    history_correspondence(ctx, code)
     for idx, why in mutations[:3]:
         nb, u, k, _ = cases[idx]
         ctx.violation({"clause": "layers_not_mutated", "why": why}, why,
@@ -253,6 +255,59 @@ def run(ctx):
     monitor_observable(ctx)
     if not proved and not ctx.violations:
         pass  # finish() reports no-failing-input-found
+
+
+def history_correspondence(ctx, code):
+    """histories of set_user_pf_options(reset, **kw) calls followed by init_options(**call): the stored layer and the
+    resolved options vs C14.Model.set_user_seq / resolve, compared inside Coq"""
+    import pandapipes  # noqa: F401
+    mod = sys.modules["pandapipes.pf.pipeflow_setup"]
+    rng = ctx.rng
+    keys = list(code) + ["iter", "my_unknown_option"]
+    n = 150 if ctx.quick else 3000
+    body, hist = [], []
+    for _ in range(n):
+        net = small_net()
+        net.pop("user_pf_options", None)
+        ops = []
+        for _ in range(rng.randint(1, 4)):
+            kw = {}
+            for key in rng.sample(keys, rng.randint(0, 4)):
+                kw[key] = rng.choice(alt_values(key, code.get(key, 5)) + ([None] if key == "iter" else []))
+            reset = rng.random() < 0.3
+            mod.set_user_pf_options(net, reset=reset, **copy.deepcopy(kw))
+            ops.append((reset, kw))
+        call = {}
+        for key in rng.sample(keys, rng.randint(0, 3)):
+            call[key] = rng.choice(alt_values(key, code.get(key, 5)))
+        stored = dict(net.user_pf_options)
+        try:
+            mod.init_options(net, **copy.deepcopy(call))
+            obs = dict(net["_options"])
+        except Exception as e:  # noqa: BLE001
+            obs = {"__exception__": repr(e)}
+        hist.append((ops, call, stored, obs))
+        ctx.case({"history": [[r, k] for r, k in ops], "call": call}, len(ops) > 1,
+                 key="hist:" + repr((ops, call)))
+        body.append("{| h_ops := %s; h_kw := %s; h_stored := %s; h_observed := %s |}" % (
+            clist(["(%s, %s)" % (cbool(r), cdict(k)) for r, k in ops]), cdict(call), cdict(stored), cdict(obs)))
+    txt = ("From Coq Require Import String List ZArith.\nFrom PP Require Import Base.Assoc C14.Model Gen.OptDefaults.\n"
+           "Import ListNotations.\nOpen Scope string_scope.\nDefinition hs : list hcase := [\n%s\n].\n"
+           "Eval vm_compute in (hsummary code_defaults hs).\n" % ";\n".join(body))
+    trip, out = ctx.coq_counts(txt, "history_cases")
+    if not trip:
+        ctx.broken("correspondence", "C14.set_user_seq / resolve vs set_user_pf_options histories (coqc failed)", out[-800:])
+        return
+    nn, mm, first = trip[0]
+    ctx.corr("C14.Model.set_user_seq + resolve == set_user_pf_options history + init_options", nn, mm)
+    ctx.count("set_user_histories", nn)
+    if mm:
+        ops, call, stored, obs = hist[first]
+        ctx.violation({"clause": "set_user_history"},
+                      "after the calls %r the stored user options are %r and init_options(**%r) gives %r; the documented "
+                      "rule (latest binding since the latest reset, then call > user > default) gives something else"
+                      % (ops, stored, call, {k: obs.get(k) for k in list(call) + [kk for _, kw in ops for kk in kw]}),
+                      {"set_user_pf_options_calls": ops, "call_kwargs": call, "stored": stored})
 
 
 def expected_by_property(code, nb, u, k):
